@@ -1,6 +1,6 @@
 CONSTANTS
   Defects = {"public_always"}
-  Family = "cache"
+  Family = "cache_small"
   Deep = FALSE
 INIT Init
 NEXT Next
